@@ -15,7 +15,7 @@ emit(struct thread *th, struct proc *proc, uint8_t cat, uint8_t ooc)
 	return model_ovni_event(&emu);
 }
 
-#ifndef FINISH
+#if !defined(FINISH) && !defined(FLUSHPAIR)
 /* One emulated instant: reference step, the real model_ovni_event, ghost-bay propagation,
  * iff oracle, post-state + Inv.  Returns the emulator's verdict. */
 static int
@@ -146,7 +146,7 @@ one_event(struct ref *r, const struct evin *e)
 #endif /* CATS != 1 */
 	return ret;
 }
-#endif /* !FINISH */
+#endif /* !FINISH && !FLUSHPAIR */
 
 void
 harness(void)
@@ -161,7 +161,45 @@ harness(void)
 	 * with the reference state. */
 	check_state(&r);
 
-#ifdef FINISH
+#ifdef FLUSHPAIR
+	/* ---- C02, emulator side: the runtime appends the OF[ OF] pair after WHATEVER event filled the buffer
+	 * (or when the program calls ovni_flush), so the pair may follow OHe (thread Dead), OHp (Paused), OHc/OHw,
+	 * or come before OHx (not started).  A conformant trace is accepted: both markers are accepted in every
+	 * thread state, the flush channel shows "flushing" in between and nothing afterwards, and the thread/CPU
+	 * state is untouched.  The flush channel is built as model_thread_create builds it for the ovni model
+	 * (CHAN_SINGLE, no property: the driver checks chan_stack/ch_dup of src/emu/ovni/setup.c on every run). */
+	static struct ovni_thread ot[2];
+	static struct chan fch[2][CH_MAX];
+	for (int i = 0; i < 2; i++) {
+		chan_init(&fch[i][CH_FLUSH], CHAN_SINGLE, "");
+		ot[i].m.ch = fch[i];
+		extend_set(i ? &th1.ext : &th0.ext, 'O', &ot[i]);
+	}
+	int who = IN.e[0].who & 1;
+	V_ASSUME(IN.fclk[0] >= 0 && IN.fclk[0] <= IN.fclk[1] && IN.fclk[1] < ((int64_t) 1 << 61));
+	memset(&ev, 0, sizeof(ev));
+	ev.m = 'O'; ev.c = 'F'; ev.v = '['; ev.dclock = IN.fclk[0];
+	int r1 = who ? emit(&th1, &p1, 'F', 0) : emit(&th0, &p0, 'F', 0);
+	V_ASSERT(r1 == 0, "C02: the emulator accepts the OF[ marker of a conformant stream in every thread state");
+	struct value fv;
+	int rr = chan_read(&fch[who][CH_FLUSH], &fv);
+	V_ASSERT(rr == 0 && fv.type == VALUE_INT64 && fv.i == ST_FLUSHING, "C02: the flush channel shows the flushing state between the markers");
+	flush_if_dirty(&fch[who][CH_FLUSH]);
+	ghost_bay_propagate();
+	ev.v = ']'; ev.dclock = IN.fclk[1];
+	int r2 = who ? emit(&th1, &p1, 'F', 0) : emit(&th0, &p0, 'F', 0);
+	V_ASSERT(r2 == 0, "C02: the emulator accepts the OF] marker of a conformant stream in every thread state");
+	rr = chan_read(&fch[who][CH_FLUSH], &fv);
+	V_ASSERT(rr == 0 && fv.type == VALUE_NULL, "C02: nothing is shown on the flush channel after the pair");
+	flush_if_dirty(&fch[who][CH_FLUSH]);
+	ghost_bay_propagate();
+	check_state(&r);   /* thread and CPU state untouched */
+	if (r.st[who] == R_DEAD) V_REACH("pair accepted after the thread ended");
+	if (r.st[who] == R_UNKNOWN) V_REACH("pair accepted before the thread started");
+	if (r.st[who] == R_PAUSED) V_REACH("pair accepted while paused");
+	if (r.st[who] == R_RUNNING) V_REACH("pair accepted while running");
+	return;
+#elif defined(FINISH)
 	/* ---- model_ovni_finish: the trace may end only with every thread Dead ---- */
 	emu.finished = IN.finished;
 	int fret = model_ovni_finish(&emu);
